@@ -1127,29 +1127,12 @@ Qed.
 Lemma sk_of_fp ss sts t : sk_of t = Sk (map sk_d (fp ss sts t)).
 Proof. rewrite sk_fp. destruct t; reflexivity. Qed.
 
-Lemma fp_sep ss sts m : 0 <= m -> m <= ss -> m <= sts ->
-  forall t, cguard_sk (sk_of t) = true -> sepF m (fp ss sts t).
+Lemma sep_case_b ss sts m g n a k0 k1 : 0 <= m -> m <= ss -> m <= sts ->
+  sepF m (fp ss sts k0) -> sepF m (fp ss sts k1) ->
+  hR (sk_of k0) = sheight (sk_of k0) -> hL (sk_of k1) = sheight (sk_of k1) ->
+  sepF m (fp ss sts (T g n a [k0; k1])).
 Proof.
-  intros Hm Hss Hsts. induction t as [g n a ks IH] using tree_ind'. intros HG.
-  cbn [sk_of] in HG. rewrite guard_unfold in HG. apply andb_true_iff in HG. destruct HG as [HGk HG].
-  rewrite forallb_forall in HGk.
-  assert (Skids : Forall (fun k => sepF m (fp ss sts k)) ks).
-  { rewrite Forall_forall in IH. apply Forall_forall. intros k Hk. apply (IH k Hk).
-    apply HGk. apply in_map. exact Hk. }
-  apply orb_true_iff in HG. destruct HG as [HG|HG].
-  { (* at most one child has children *)
-    apply Nat.leb_le in HG.
-    destruct (fp_inv ss sts (T g n a ks)) as [_ [Hcx Hmo]].
-    apply (sep_one_nonleaf m ss); try assumption.
-    - rewrite sk_fp. cbn [sk_of skids]. exact HG.
-    - assert (E : Forall (sepF m) (map dkids (fp ss sts (T g n a ks)))).
-      { rewrite fp_dkids. apply Forall_map. exact Skids. }
-      rewrite Forall_map in E. exact E. }
-  destruct ks as [|k0 [|k1 [|k2 ks]]]; cbn [map] in HG; try discriminate HG.
-  - (* two children *)
-    inversion Skids as [|? ? S0 Sr]; subst. inversion Sr as [|? ? S1 _]; subst.
-    apply andb_true_iff in HG. destruct HG as [HR HL].
-    apply Nat.eqb_eq in HR. apply Nat.eqb_eq in HL.
+  intros Hm Hss Hsts S0 S1 HR HL.
     rewrite (sk_of_fp ss sts k0), hR_chain in HR. rewrite (sk_of_fp ss sts k1) in HL.
     cbn [sheight hL] in HR, HL. rewrite <- map_rev in HR.
     injection HR as HR. injection HL as HL.
@@ -1178,6 +1161,36 @@ Proof.
       destruct (Forall2_In_r _ _ _ _ (lvs_shift off j K0 _ _ EA) Ha) as [a1 [Ha1 Ea]].
       destruct (Forall2_In_r _ _ _ _ (lvs_shift (off + s) j K1 _ _ EB) Hb) as [b1 [Hb1 Eb]].
       specialize (CS j a1 b1 Ha1 Hb1). lra.
+Qed.
+
+Lemma sep_case_a ss sts m g n a ks : 0 <= m -> m <= ss ->
+  Forall (fun k => sepF m (fp ss sts k)) ks -> (nonleaves (map sk_of ks) <= 1)%nat ->
+  sepF m (fp ss sts (T g n a ks)).
+Proof.
+  intros Hm Hss Skids HG.
+  destruct (fp_inv ss sts (T g n a ks)) as [_ [Hcx Hmo]].
+  apply (sep_one_nonleaf m ss); try assumption.
+  - rewrite sk_fp. cbn [sk_of skids]. exact HG.
+  - assert (E : Forall (sepF m) (map dkids (fp ss sts (T g n a ks)))).
+    { rewrite fp_dkids. apply Forall_map. exact Skids. }
+    rewrite Forall_map in E. exact E.
+Qed.
+
+Lemma fp_sep ss sts m : 0 <= m -> m <= ss -> m <= sts ->
+  forall t, cguard_sk (sk_of t) = true -> sepF m (fp ss sts t).
+Proof.
+  intros Hm Hss Hsts. induction t as [g n a ks IH] using tree_ind'. intros HG.
+  cbn [sk_of] in HG. rewrite guard_unfold in HG. apply andb_true_iff in HG. destruct HG as [HGk HG].
+  rewrite forallb_forall in HGk.
+  assert (Skids : Forall (fun k => sepF m (fp ss sts k)) ks).
+  { rewrite Forall_forall in IH. apply Forall_forall. intros k Hk. apply (IH k Hk).
+    apply HGk. apply in_map. exact Hk. }
+  apply orb_true_iff in HG. destruct HG as [HG|HG].
+  { apply Nat.leb_le in HG. apply sep_case_a; assumption. }
+  destruct ks as [|k0 [|k1 [|k2 ks]]]; cbn [map] in HG; try discriminate HG.
+  inversion Skids as [|? ? S0 Sr]; subst. inversion Sr as [|? ? S1 _]; subst.
+  apply andb_true_iff in HG. destruct HG as [HR HL].
+  apply Nat.eqb_eq in HR. apply Nat.eqb_eq in HL. apply sep_case_b; assumption.
 Qed.
 
 (* from relative positions to the final coordinates *)
@@ -1215,6 +1228,23 @@ Qed.
 
 Lemma cousinsP_third m c : cousinsP m c -> cousinsP m (third c).
 Proof. intros H. unfold third. destruct (Qeq_bool (adjust c) 0); [exact H|]. apply cousinsP_cshift, H. Qed.
+
+Lemma rt_cousinsP_sep p t :
+  sepF (Qmin (p_ss p) (p_sts p)) (fp (p_ss p) (p_sts p) t) ->
+  cousinsP (Qmin (p_ss p) (p_sts p)) (reingold_tilford p t).
+Proof.
+  intros HS. set (m := Qmin (p_ss p) (p_sts p)) in *.
+  rewrite rt_third. apply cousinsP_third. intros k. unfold rt2.
+  eapply (ordP_Forall2_l _ (gap m)); [|apply (second_lv _ _ _ _ k _ _ 0 0); reflexivity|].
+  - intros a a' b b' E1 E2 Hg. unfold gap in Hg. rewrite E1, E2. lra.
+  - apply sep_node. unfold first_pass. cbn [dkids]. exact HS.
+Qed.
+
+Lemma min_facts p : params_pos p ->
+  0 <= Qmin (p_ss p) (p_sts p) /\ Qmin (p_ss p) (p_sts p) <= p_ss p /\ Qmin (p_ss p) (p_sts p) <= p_sts p.
+Proof.
+  intros [Hss [Hsts _]]. split; [apply Q.min_glb; lra|]. split; [apply Q.le_min_l|apply Q.le_min_r].
+Qed.
 
 Lemma rt_cousinsP p t : params_pos p -> cousin_guard t = true ->
   cousinsP (Qmin (p_ss p) (p_sts p)) (reingold_tilford p t).
@@ -1294,4 +1324,308 @@ Proof.
   destruct (dkids right) as [|a' b']; [reflexivity|]. rewrite <- El.
   rewrite dheight_sk in *.
   apply contour_fuel; intros x Hx; apply in_rev in Hx; apply sheight_kid in Hx; lia.
+Qed.
+
+(* =============================================================================================
+   Clause (c) of the wider guard: a parent all of whose grandchildren are leaves *)
+
+Lemma pos_of_nat_Z idx : (0 < idx)%nat -> Z.pos (Pos.of_nat idx) = Z.of_nat idx.
+Proof. intros H. destruct idx as [|n]; [lia|]. rewrite <- Pos.of_nat_succ. lia. Qed.
+
+Lemma frac_one idx : (0 < idx)%nat -> (Z.of_nat idx # Pos.of_nat idx) == 1.
+Proof. intros H. unfold Qeq. cbn [Qnum Qden]. rewrite pos_of_nat_Z by exact H. lia. Qed.
+
+Lemma frac_le k k' idx : (k <= k')%nat -> (Z.of_nat k # Pos.of_nat idx) <= (Z.of_nat k' # Pos.of_nat idx).
+Proof. intros H. unfold Qle. cbn [Qnum Qden]. nia. Qed.
+
+Lemma frac_lt1 j idx : (j < idx)%nat -> (Z.of_nat j # Pos.of_nat idx) < 1.
+Proof. intros H. unfold Qlt. cbn [Qnum Qden]. rewrite pos_of_nat_Z by lia. lia. Qed.
+
+Definition reshift (d : dtree) (sh' : Q) : dtree := D (dx d) (dmod d) sh' (dkids d).
+
+Definition cross1 (m : Q) (d e : dtree) : Prop :=
+  forall off a b, In a (lv 1 off d) -> In b (lv 1 off e) -> a + m <= b.
+
+Lemma lv1_reshift off d sh' dl : sh' == dsh d + dl ->
+  Forall2 (fun a b => b == a + dl) (lv 1 off d) (lv 1 off (reshift d sh')).
+Proof.
+  intros E. rewrite !lv_S. cbn [reshift dmod dsh dkids]. apply lvs_shift. rewrite E. lra.
+Qed.
+
+Lemma cross1_reshift m d e sd se d1 d2 :
+  sd == dsh d + d1 -> se == dsh e + d2 -> d1 <= d2 -> cross1 m d e ->
+  cross1 m (reshift d sd) (reshift e se).
+Proof.
+  intros E1 E2 Hle H off a b Ha Hb.
+  destruct (Forall2_In_r _ _ _ _ (lv1_reshift off d sd d1 E1) Ha) as [a0 [Ha0 Ea]].
+  destruct (Forall2_In_r _ _ _ _ (lv1_reshift off e se d2 E2) Hb) as [b0 [Hb0 Eb]].
+  specialize (H off a0 b0 Ha0 Hb0). lra.
+Qed.
+
+Lemma bump_cons s idx k d r :
+  bump s idx k (d :: r) = reshift d (Qred (dsh d + s * (Z.of_nat k # Pos.of_nat idx))) :: bump s idx (S k) r.
+Proof. destruct d; reflexivity. Qed.
+
+Lemma bump_app s idx : forall a b k,
+  bump s idx k (a ++ b) = bump s idx k a ++ bump s idx (k + length a) b.
+Proof.
+  induction a as [|x a IH]; intros b k; cbn [app length].
+  - rewrite Nat.add_0_r. reflexivity.
+  - rewrite !bump_cons. cbn [app]. rewrite IH.
+    replace (S k + length a)%nat with (k + S (length a))%nat by lia. reflexivity.
+Qed.
+
+Lemma Forall_bump_cross m s idx d k : 0 <= s -> forall r k', (k <= k')%nat ->
+  Forall (cross1 m d) r ->
+  Forall (cross1 m (reshift d (Qred (dsh d + s * (Z.of_nat k # Pos.of_nat idx))))) (bump s idx k' r).
+Proof.
+  intros Hs. induction r as [|e r IH]; intros k' Hk HF; [constructor|].
+  inversion HF as [|? ? He Hr]; subst. rewrite bump_cons. constructor; [|apply IH; [lia|exact Hr]].
+  eapply cross1_reshift; [apply Qred_correct|apply Qred_correct| |exact He].
+  pose proof (frac_le k k' idx Hk). nra.
+Qed.
+
+Lemma ordP_bump m s idx : 0 <= s -> forall l k, ordP (cross1 m) l -> ordP (cross1 m) (bump s idx k l).
+Proof.
+  intros Hs. induction l as [|d l IH]; intros k HO; [exact I|].
+  cbn [ordP] in HO. destruct HO as [H1 H2]. rewrite bump_cons. cbn [ordP]. split; [|apply IH, H2].
+  apply Forall_bump_cross; [exact Hs|lia|exact H1].
+Qed.
+
+Lemma max_shift_each sts nd idx : forall lefts j0 acc i l,
+  nth_error lefts i = Some l -> subtree_shift sts l nd (j0 + i) idx <= max_shift sts nd idx j0 lefts acc.
+Proof.
+  induction lefts as [|x r IH]; intros j0 acc i l H; [destruct i; discriminate|].
+  cbn [max_shift]. destruct i as [|i]; cbn [nth_error] in H.
+  - injection H as ->. rewrite Nat.add_0_r. eapply Qle_trans; [apply Q.le_max_r|apply max_shift_ge].
+  - replace (j0 + S i)%nat with (S j0 + i)%nat by lia. apply IH. exact H.
+Qed.
+
+Lemma left_max m Lk lcs l0 X' : 0 <= m -> rev Lk = l0 :: X' -> sepF m Lk ->
+  forall a, In a (lvs 0 lcs Lk) -> a <= dx l0 + dsh l0 + lcs.
+Proof.
+  intros Hm Erev Hsep.
+  assert (EL : Lk = rev X' ++ [l0]).
+  { rewrite <- (rev_involutive Lk), Erev. reflexivity. }
+  intros a Ha. pose proof (Hsep 0%nat lcs) as H0. rewrite EL, lvs_app in H0, Ha.
+  apply ordP_app in H0. destruct H0 as [_ [_ H0]].
+  apply in_app_or in Ha. destruct Ha as [Ha|Ha].
+  - specialize (H0 a (dx l0 + dsh l0 + lcs) Ha). unfold gap in H0.
+    assert (a + m <= dx l0 + dsh l0 + lcs) by (apply H0; left; reflexivity). lra.
+  - cbn in Ha. destruct Ha as [<-|[]]. lra.
+Qed.
+
+Lemma right_min m Rk rcs r0 X' : 0 <= m -> Rk = r0 :: X' -> sepF m Rk ->
+  forall b, In b (lvs 0 rcs Rk) -> dx r0 + dsh r0 + rcs <= b.
+Proof.
+  intros Hm ER Hsep b Hb. pose proof (Hsep 0%nat rcs) as H0. rewrite ER, lvs_cons in H0, Hb.
+  apply ordP_app in H0. destruct H0 as [_ [_ H0]].
+  apply in_app_or in Hb. destruct Hb as [Hb|Hb].
+  - cbn in Hb. destruct Hb as [<-|[]]. lra.
+  - specialize (H0 (dx r0 + dsh r0 + rcs) b). unfold gap in H0.
+    assert (dx r0 + dsh r0 + rcs + m <= b) by (apply H0; [left; reflexivity|exact Hb]). lra.
+Qed.
+
+(* one level of contour comparison between two subtrees whose children are leaves *)
+Lemma contour_flat fuel rt sts l0 XL r0 XR lcs rcs :
+  Forall dleaf (l0 :: XL) -> Forall dleaf (r0 :: XR) ->
+  (dx l0 + dsh l0 + lcs + sts - (dx r0 + dsh r0 + rcs + 0)) / rt
+  <= contour fuel rt sts (l0 :: XL) (r0 :: XR) lcs rcs 0.
+Proof.
+  intros HL HR.
+  assert (EL : dkids (pick (l0 :: XL) l0) = []).
+  { rewrite Forall_forall in HL. apply HL. apply pick_in. discriminate. }
+  destruct fuel as [|f]; cbn [contour]; cbv zeta; [|rewrite EL]; rewrite Qred_correct;
+    match goal with |- _ <= 0 + Qmax ?a ?b => pose proof (Q.le_max_l a b) as H; set (q := a) in * end; lra.
+Qed.
+
+Lemma cross1_new m sts d nd j idx s sd sn :
+  0 <= m -> m <= sts -> (j < idx)%nat ->
+  Forall dleaf (dkids d) -> Forall dleaf (dkids nd) -> sepF m (dkids d) -> sepF m (dkids nd) ->
+  subtree_shift sts d nd j idx <= s ->
+  sd == dsh d + s * (Z.of_nat j # Pos.of_nat idx) ->
+  sn == dsh nd + s * (Z.of_nat idx # Pos.of_nat idx) ->
+  cross1 m (reshift d sd) (reshift nd sn).
+Proof.
+  intros Hm Hsts Hj HLd HLn HSd HSn Hs Esd Esn off a b Ha Hb.
+  rewrite lv_S in Ha, Hb. cbn [reshift dmod dsh dkids] in Ha, Hb.
+  unfold subtree_shift in Hs.
+  destruct (dkids d) as [|kd0 kdr] eqn:EKd; [destruct Ha|].
+  destruct (dkids nd) as [|r0 XR] eqn:EKn; [destruct Hb|].
+  cbv beta iota in Hs. rewrite <- EKd in *.
+  destruct (rev (dkids d)) as [|l0 XL] eqn:Erev.
+  { exfalso. assert (E : dkids d = []) by (rewrite <- (rev_involutive (dkids d)), Erev; reflexivity).
+    rewrite E in EKd. discriminate. }
+  assert (HLrev : Forall dleaf (l0 :: XL)).
+  { rewrite <- Erev. apply Forall_forall. intros x Hx. apply in_rev in Hx.
+    rewrite Forall_forall in HLd. apply HLd, Hx. }
+  pose proof (contour_flat (dheight d) (ratio j idx) sts l0 XL r0 XR
+                (Qred (dmod d + dsh d)) (Qred (dmod nd + dsh nd)) HLrev HLn) as HC.
+  pose proof (left_max m (dkids d) (off + dmod d + sd) l0 XL Hm Erev HSd a Ha) as HA.
+  pose proof (right_min m (r0 :: XR) (off + dmod nd + sn) r0 XR Hm eq_refl HSn b Hb) as HB.
+  pose proof (frac_lt1 j idx Hj) as HF1.
+  assert (HF2 : (Z.of_nat idx # Pos.of_nat idx) == 1) by (apply frac_one; lia).
+  rewrite HF2 in Esn. unfold ratio in HC, Hs.
+  set (F1 := Z.of_nat j # Pos.of_nat idx) in *.
+  set (N := dx l0 + dsh l0 + Qred (dmod d + dsh d) + sts - (dx r0 + dsh r0 + Qred (dmod nd + dsh nd) + 0)) in *.
+  assert (Hrt : ~ 1 - F1 == 0) by (intros E; lra).
+  pose proof (Qmult_div_r N (1 - F1) Hrt) as HQ.
+  set (q := N / (1 - F1)) in *.
+  assert (Hq : q <= s) by lra.
+  assert (HN : N <= s * (1 - F1)) by nra.
+  unfold N in HN. rewrite !Qred_correct in HN. lra.
+Qed.
+
+Lemma bump_In s idx : forall l k d', In d' (bump s idx k l) ->
+  exists i d, nth_error l i = Some d
+              /\ d' = reshift d (Qred (dsh d + s * (Z.of_nat (k + i) # Pos.of_nat idx))).
+Proof.
+  induction l as [|x l IH]; intros k d' H; [destruct H|]. rewrite bump_cons in H.
+  destruct H as [<-|H].
+  - exists 0%nat, x. split; [reflexivity|]. rewrite Nat.add_0_r. reflexivity.
+  - destruct (IH (S k) d' H) as [i [d [H1 H2]]]. exists (S i), d. split; [exact H1|].
+    replace (k + S i)%nat with (S k + i)%nat by lia. exact H2.
+Qed.
+
+Definition flatok (m : Q) (d : dtree) : Prop := Forall dleaf (dkids d) /\ sepF m (dkids d).
+
+Lemma place_flat ss sts m : 0 <= m -> m <= sts -> forall todo done pend,
+  Forall (fun dk => Forall dleaf dk /\ sepF m dk) todo ->
+  Forall (flatok m) done -> ordP (cross1 m) done ->
+  let r := place ss sts done todo pend in
+  Forall (flatok m) r /\ ordP (cross1 m) r.
+Proof.
+  intros Hm Hsts. induction todo as [|dk rest IH]; intros done pend Htodo Hdone Hcross.
+  - cbn [place]. split; assumption.
+  - inversion Htodo as [|? ? [Hdk1 Hdk2] Hrest]; subst. cbn [place].
+    set (x := match done with
+              | [] => match dk with [] => 0 | _ :: _ => midpoint dk end
+              | d0 :: _ => Qred (dx (last done d0) + ss)
+              end).
+    set (md := match done, dk with
+               | _ :: _, _ :: _ => Qred (x - midpoint dk)
+               | _, _ => 0
+               end).
+    set (nd := D x md (hd 0 pend) dk).
+    assert (Hnd : flatok m nd) by (split; assumption).
+    destruct done as [|d0 done'].
+    + apply IH; [exact Hrest|constructor; [exact Hnd|constructor]|]. cbn. split; [constructor|exact I].
+    + set (done := d0 :: done') in *. set (idx := length done).
+      set (s := max_shift sts nd idx 0 done 0).
+      assert (Hs : 0 <= s) by apply max_shift_ge.
+      apply IH; [exact Hrest| |].
+      * apply bump_Forall; [intros x0 m0 sh sh' ks H; exact H|].
+        apply Forall_app. split; [exact Hdone|constructor; [exact Hnd|constructor]].
+      * rewrite bump_app. apply ordP_app. split; [apply ordP_bump; assumption|].
+        cbn [Nat.add]. fold idx. rewrite bump_cons. cbn [bump]. split; [cbn; split; [constructor|exact I]|].
+        intros d' e Hd' [<-|[]].
+        destruct (bump_In _ _ _ _ _ Hd') as [i [d [Hi ->]]]. cbn [Nat.add].
+        assert (Hlt : (i < idx)%nat) by (apply nth_error_Some; rewrite Hi; discriminate).
+        assert (Hd : flatok m d).
+        { rewrite Forall_forall in Hdone. apply Hdone. eapply nth_error_In. exact Hi. }
+        destruct Hd as [Hd1 Hd2]. destruct Hnd as [Hn1 Hn2].
+        eapply (cross1_new m sts d nd i idx s); try eassumption.
+        -- apply (max_shift_each sts nd idx done 0 0 i d Hi).
+        -- apply Qred_correct.
+        -- apply Qred_correct.
+Qed.
+
+Lemma ordP_flat_map {A B} (R : B -> B -> Prop) (f : A -> list B) (l : list A) :
+  (forall x, In x l -> ordP R (f x)) ->
+  ordP (fun x y => forall a b, In a (f x) -> In b (f y) -> R a b) l ->
+  ordP R (flat_map f l).
+Proof.
+  induction l as [|x l IH]; intros H1 H2; [exact I|]. cbn [flat_map]. cbn [ordP] in H2.
+  destruct H2 as [H2 H3]. apply ordP_app. split; [apply H1; left; reflexivity|].
+  split; [apply IH; [intros y Hy; apply H1; right; exact Hy|exact H3]|].
+  intros a b Ha Hb. apply in_flat_map in Hb. destruct Hb as [y [Hy Hb]].
+  rewrite Forall_forall in H2. apply (H2 y Hy a b Ha Hb).
+Qed.
+
+Lemma flat_map_nil {A B} (f : A -> list B) l : (forall x, In x l -> f x = []) -> flat_map f l = [].
+Proof.
+  induction l as [|x l IH]; intros H; [reflexivity|]. cbn [flat_map].
+  rewrite (H x (or_introl eq_refl)), IH; [reflexivity|]. intros y Hy. apply H. right. exact Hy.
+Qed.
+
+Lemma sep_case_c ss sts m g n a ks : 0 <= m -> m <= ss -> m <= sts ->
+  Forall (fun k => sepF m (fp ss sts k)) ks -> flat2 (map sk_of ks) = true ->
+  sepF m (fp ss sts (T g n a ks)).
+Proof.
+  intros Hm Hss Hsts Skids HG.
+  destruct (fp_inv ss sts (T g n a ks)) as [_ [Hcx Hmo]].
+  assert (Htodo : Forall (fun dk => Forall dleaf dk /\ sepF m dk) (map (fp ss sts) ks)).
+  { apply Forall_map. unfold flat2 in HG. rewrite forallb_forall in HG.
+    rewrite Forall_forall in Skids. apply Forall_forall. intros k Hk. split; [|apply Skids, Hk].
+    specialize (HG (sk_of k) (in_map sk_of ks k Hk)). rewrite forallb_forall in HG.
+    apply Forall_forall. intros d Hd. unfold dleaf.
+    assert (Hin : In (sk_d d) (skids (sk_of k))) by (rewrite <- (sk_fp ss sts k); apply in_map, Hd).
+    specialize (HG _ Hin). rewrite sleaf_sk_d in HG. destruct (dkids d); [reflexivity|discriminate]. }
+  destruct (place_flat ss sts m Hm Hsts (map (fp ss sts) ks) [] (map (fun _ => 0) ks) Htodo
+                       (Forall_nil _) I) as [HF HC].
+  change (place ss sts [] (map (fp ss sts) ks) (map (fun _ => 0) ks)) with (fp ss sts (T g n a ks)) in HF, HC.
+  set (F := fp ss sts (T g n a ks)) in *.
+  intros [|[|j]] off.
+  - rewrite lvs0. apply ordP_map. eapply ordP_impl; [|apply (chain_pairs ss ltac:(lra) F Hcx Hmo)].
+    intros x y Hxy. unfold gap. cbn beta in Hxy. lra.
+  - unfold lvs. apply ordP_flat_map.
+    + intros d Hd. rewrite lv_S. rewrite Forall_forall in HF. apply (HF d Hd).
+    + eapply ordP_impl; [|exact HC]. intros d e H a0 b0 Ha Hb. apply (H off a0 b0 Ha Hb).
+  - unfold lvs. rewrite flat_map_nil; [exact I|]. intros d Hd. rewrite lv_S.
+    rewrite Forall_forall in HF. apply lvs_leaves. apply (HF d Hd).
+Qed.
+
+Lemma guard2_unfold l :
+  cguard2_sk (Sk l) = forallb cguard2_sk l
+                      && (Nat.leb (nonleaves l) 1
+                          || match l with
+                             | [a; b] => Nat.eqb (hR a) (sheight a) && Nat.eqb (hL b) (sheight b)
+                             | _ => false
+                             end
+                          || flat2 l).
+Proof. reflexivity. Qed.
+
+Lemma fp_sep2 ss sts m : 0 <= m -> m <= ss -> m <= sts ->
+  forall t, cguard2_sk (sk_of t) = true -> sepF m (fp ss sts t).
+Proof.
+  intros Hm Hss Hsts. induction t as [g n a ks IH] using tree_ind'. intros HG.
+  cbn [sk_of] in HG. rewrite guard2_unfold in HG. apply andb_true_iff in HG. destruct HG as [HGk HG].
+  rewrite forallb_forall in HGk.
+  assert (Skids : Forall (fun k => sepF m (fp ss sts k)) ks).
+  { rewrite Forall_forall in IH. apply Forall_forall. intros k Hk. apply (IH k Hk).
+    apply HGk. apply in_map. exact Hk. }
+  apply orb_true_iff in HG. destruct HG as [HG|HG]; [|apply sep_case_c; assumption].
+  apply orb_true_iff in HG. destruct HG as [HG|HG].
+  { apply Nat.leb_le in HG. apply sep_case_a; assumption. }
+  destruct ks as [|k0 [|k1 [|k2 ks]]]; cbn [map] in HG; try discriminate HG.
+  inversion Skids as [|? ? S0 Sr]; subst. inversion Sr as [|? ? S1 _]; subst.
+  apply andb_true_iff in HG. destruct HG as [HR HL].
+  apply Nat.eqb_eq in HR. apply Nat.eqb_eq in HL. apply sep_case_b; assumption.
+Qed.
+
+Lemma guard_guard2 : forall s, cguard_sk s = true -> cguard2_sk s = true.
+Proof.
+  induction s as [l IH] using sk_ind'. rewrite guard_unfold, guard2_unfold. intros H.
+  apply andb_true_iff in H. destruct H as [H1 H2]. apply andb_true_iff. split.
+  - rewrite forallb_forall in *. rewrite Forall_forall in IH. intros x Hx. apply IH; [exact Hx|apply H1, Hx].
+  - rewrite H2. reflexivity.
+Qed.
+
+Lemma rt_cousins_partial2 eps p t : 0 <= eps -> params_pos p -> cousin_guard2 t = true ->
+  cousins_ok eps (p_ss p) (p_sts p) (reingold_tilford p t) = true.
+Proof.
+  intros He Hp HG. destruct (min_facts p Hp) as [Hm [Hm1 Hm2]].
+  unfold cousins_ok. apply forallb_forall. intros k _.
+  eapply ordpairs_true; [|apply (rt_cousinsP_sep p t)].
+  - intros a b Hab. cbn beta in Hab. apply leq_eps_true; assumption.
+  - apply fp_sep2; assumption.
+Qed.
+
+(* the shape of every failure of clause 4 (contrapositive): if two nodes of one depth come closer
+   than min(sibling, subtree separation), the tree violates the guard *)
+Lemma rt_cousins_failure_shape p t : params_pos p ->
+  cousins_ok 0 (p_ss p) (p_sts p) (reingold_tilford p t) = false -> cousin_guard2 t = false.
+Proof.
+  intros Hp HF. destruct (cousin_guard2 t) eqn:E; [|reflexivity].
+  rewrite (rt_cousins_partial2 0 p t) in HF; [discriminate|lra|exact Hp|exact E].
 Qed.
